@@ -232,3 +232,79 @@ def absorb(rep, mod_name, results, key_of, label):
         rep.sample({"instance": name, "x_vars": r.get("n_x"), "aux_vars": r.get("n_aux"),
                     "constraints": r.get("n_constraints"),
                     "queries": [(q, v, round(dt, 3)) for q, v, dt in r.get("queries", [])]})
+
+
+# ---------------------------------------------------------------------------------------------------------------------
+# "spot" mode for instances too large for the exists-forall query: the caller's variables are pinned to given patterns
+# (chosen adversarially: long chains, spirals), the solver still decides over ALL auxiliary assignments, and the verdict is
+# compared with the plain-Python specification.  Weaker than the set-equality queries (patterns are a sample) - labelled so.
+# ---------------------------------------------------------------------------------------------------------------------
+def decide_spot(mod_name, desc, timeout_s=60):
+    res = {"desc": desc, "queries": [], "status": "ok", "spot": []}
+    try:
+        mod = importlib.import_module(mod_name)
+        try:
+            b = mod.build(desc)
+        except Exception as e:
+            res["status"] = "build-exception"
+            res["exception"] = "%s: %s" % (type(e).__name__, e)
+            return res
+        env = ref.Env()
+        Fz = z3.And([ref.rb(c, env) for c in b.constraints] or [z3.BoolVal(True)])
+        dom = env.domain(list(b.solver.variables))
+        for pat in desc["patterns"]:
+            s = z3.Solver()
+            s.add(dom, Fz)
+            assign = {}
+            for v, val in zip(b.xvars, pat):
+                assign[id(v)] = val
+                s.add(env.z(v) == (z3.BoolVal(val) if isinstance(v, BoolVar) else z3.IntVal(val)))
+            v, dt = _check(s, timeout_s * 1000)
+            want = bool(b.spec_py(assign))
+            res["queries"].append(("spot", v, dt))
+            res["spot"].append((list(pat), v, want))
+    except Exception as e:
+        res["status"] = "harness-exception"
+        res["exception"] = "%s: %s" % (type(e).__name__, e)
+        res["trace"] = traceback.format_exc()[-2000:]
+    return res
+
+
+def _spot_worker(args):
+    return decide_spot(*args)
+
+
+def run_spot(rep, mod_name, descs, key_of, label, timeout_s=60):
+    from .. import common
+    if not descs:
+        return
+    ctx = mp.get_context("fork")
+    with ctx.Pool(min(common.ncores(), len(descs)), maxtasksperchild=8) as pool:
+        results = list(pool.imap_unordered(_spot_worker, [(mod_name, d, timeout_s) for d in descs]))
+    n = 0
+    for r in results:
+        d = r["desc"]
+        if r["status"] == "build-exception":
+            ok, detail = replay(mod_name, d, "build-exception", None)
+            rep.counterexample(key_of(d, "exception"), "%s raised on %s: %s" % (label, d["name"], r["exception"]),
+                               {"module": mod_name, "desc": d, "kind": "build-exception"}, ok)
+            continue
+        if r["status"] != "ok":
+            rep.harness_error("%s on %s: %s" % (r["status"], d["name"], r.get("exception")))
+            continue
+        for (q, v, dt) in r["queries"]:
+            rep.count_query("%s:%s" % (q, v), dt)
+        for pat, v, want in r["spot"]:
+            n += 1
+            if v not in ("sat", "unsat"):
+                rep.inconc("%s spot: %s" % (d["name"], v))
+            elif (v == "sat") == want:
+                rep.ok()
+                rep.distinct.add((d["name"], "spot", tuple(pat)))
+            else:
+                kind = "sound" if v == "sat" else "complete"
+                ok, detail = replay(mod_name, {k: x for k, x in d.items() if k != "patterns"}, kind, pat)
+                rep.counterexample(key_of(d, kind), "%s %s the pinned pattern %r on %s (%s)" % (
+                    label, "accepts" if v == "sat" else "rejects", pat, d["name"], detail),
+                    {"module": mod_name, "desc": {k: x for k, x in d.items() if k != "patterns"}, "kind": kind, "witness": pat}, ok)
+    rep.extra["spot_patterns_decided"] = rep.extra.get("spot_patterns_decided", 0) + n
